@@ -550,6 +550,12 @@ func DecodeEventQueryResponse(payload []byte) (*EventQueryResult, error) {
 		if res.Model != nil || res.Collection != nil {
 			return nil, errInvalidResponse
 		}
+		// Assert events array has no null entries
+		for _, ev := range res.Events {
+			if ev == nil {
+				return nil, errInvalidResponse
+			}
+		}
 	case res.Model != nil:
 		if res.Collection != nil {
 			return nil, errInvalidResponse
